@@ -26,6 +26,11 @@ CLAIMED['C07'] = dict(design='5 (C07), 2', note='trusted: MIRSE MIR semantics + 
     'index with positive weight), reproducibility checked as absence of draws from unseeded generators; sources are in-memory '
     'ExactSizeIterators of every length vector within the bound; termination = step budget + bounded number of next() calls; hang '
     'defect of the interleaved strategy repaired by a fix commit (known_findings.json)')
+CLAIMED['C06'] = dict(design='5 (C06), 2', note='trusted: MIRSE MIR semantics + std models; items are harness values whose ItemSize::size is '
+    'a symbolic field; rand = every stream (random_range draw = solver variable, shuffle = forked permutation), determinism checked as '
+    'absence of unseeded draws; limits/prefetch symbolic (small regime) or extreme 64-bit values (wide regime); termination = bounded '
+    'next() calls + step budget; multiplication overflow repaired by a fix commit (known_findings.json). The Kani second opinion '
+    'planned in DESIGN.md is not built')
 NOT_YET = 'check not built yet in this session (work in progress, see DESIGN.md section 6 for the order)'
 NA = {}
 
